@@ -87,9 +87,13 @@ def one(ctx, i):
             mask = (i * 8 + j) % (2 ** 11 - 1) + 1
             todo.append([v for k, v in enumerate(CE.ALLV) if mask >> k & 1])
     todo.append(None)
+    todo.append('dup')
     adv = set().union(*[set(e['vars']) for e in tr.els])
     # the documented contract rejects variables no element records (ValueError 'Invalid variable'): request recorded ones only
-    todo = [s_ if s_ is None else ([v for v in s_ if v in adv] or [rng.choice(sorted(adv))]) for s_ in todo]
+    todo = [s_ if s_ is None or s_ == 'dup' else ([v for v in s_ if v in adv] or [rng.choice(sorted(adv))]) for s_ in todo]
+    # a selection concatenated from two lists names a variable twice: the frame is the one of the selection without repetition
+    dup_ = sorted(adv)[:2] + sorted(adv)[:1] + sorted(adv)[-1:]
+    todo = [(dup_ if s_ == 'dup' else s_) for s_ in todo]
     for sub in todo:
         units = CE.random_units(rng)
         for a, u in units.items():
